@@ -3,6 +3,11 @@ package main
 import (
 	"encoding/json"
 	"fmt"
+	"sort"
+	"strings"
+	"time"
+
+	"github.com/couchbase/gocbcore/v10"
 
 	"github.com/Trendyol/go-dcp/config"
 	"github.com/Trendyol/go-dcp/logger"
@@ -81,4 +86,105 @@ func init() {
 			vrt.SetOutcome(fmt.Sprintf("read at point %d", k))
 		}}
 	}
+}
+
+// c17_runtime: the configuration object the application handed over (and reads back through GetConfig()) after
+// the defaults were applied is not altered by RUNNING the client: Start(), a delivery, a rebalance, the periodic
+// components (health check with a time-out below / equal to / above its interval, explicit or defaulted;
+// rollback mitigation; checkpoint schedule) and Close() leave every option at the value it had when the
+// constructor returned.
+func init() {
+	scenarios["c17_runtime"] = func(raw json.RawMessage) *vrt.Scenario {
+		return &vrt.Scenario{Name: "c17_runtime", FreeChoices: true, NoTimerAlt: true, MaxSteps: 2_000_000, Main: func() {
+			resetGlobals()
+			hc := vrt.Choose(5, true, "health-check") // off | timeout<interval | = | > (explicit) | default timeout, short interval
+			mit := vrt.Choose(2, true, "mitigation") == 1
+			cp := []string{"auto", "manual"}[vrt.Choose(2, true, "checkpoint")]
+			o := DcpOpts{HealthCheck: hc != 0}
+			o.Vbs = 2
+			o.CheckpointType = cp
+			o.Mitigation = mit
+			o.MembershipType = "static"
+			o.AutoAck = true
+			o.CheckpointInterval = 10 * time.Second
+			o.RebalanceDelay = 5 * time.Second
+			o.Tweak = func(cfg *config.Dcp) {
+				switch hc {
+				case 1:
+					cfg.HealthCheck.Interval, cfg.HealthCheck.Timeout = 10*time.Second, 3*time.Second
+				case 2:
+					cfg.HealthCheck.Interval, cfg.HealthCheck.Timeout = 10*time.Second, 10*time.Second
+				case 3:
+					cfg.HealthCheck.Interval, cfg.HealthCheck.Timeout = 10*time.Second, 30*time.Second
+				case 4:
+					cfg.HealthCheck.Interval, cfg.HealthCheck.Timeout = 20*time.Second, 0 // the documented default (1m) applies
+				}
+			}
+			c := NewCluster(&o.EnvOpts)
+			c.Append(0, marker(1, 2), symbolPacket("M", 1), symbolPacket("M", 2))
+			if mit {
+				for vb := uint16(0); vb < 2; vb++ {
+					c.SetPersist(vb, 0, gocbcore.SimPersist{VbUUID: c.Vb[vb].Failover[0].VbUUID, Persist: 9, Current: 9})
+				}
+			}
+			e := NewDcpEnv(c, o)
+			if e.Err != nil {
+				vrt.Failf("newDcp: %v", e.Err)
+				return
+			}
+			snap := func() string {
+				b, err := json.Marshal(e.D.GetConfig())
+				if err != nil {
+					return "unmarshalable: " + err.Error()
+				}
+				return string(b)
+			}
+			before := snap()
+			e.Start()
+			vrt.Sleep(25 * time.Second)
+			dcpStream(e).Rebalance()
+			vrt.Sleep(30 * time.Second)
+			c.Append(1, marker(1, 1), symbolPacket("M", 1))
+			vrt.Sleep(25 * time.Second)
+			e.D.Close()
+			for i := 0; i < 20 && !e.Done; i++ {
+				vrt.Sleep(15 * time.Second)
+			}
+			desc := fmt.Sprintf("health check %s, mitigation %v, checkpoint %s", []string{"off", "timeout 3s < interval 10s", "timeout = interval = 10s", "timeout 30s > interval 10s", "default timeout, interval 20s"}[hc], mit, cp)
+			if after := snap(); after != before {
+				vrt.Failf("%s: running the client altered the configuration: %s", desc, diffJSON(before, after))
+			}
+			vrt.SetOutcome(desc)
+		}}
+	}
+}
+
+// diffJSON names the leaves in which two JSON documents differ.
+func diffJSON(a, b string) string {
+	var x, y any
+	_ = json.Unmarshal([]byte(a), &x)
+	_ = json.Unmarshal([]byte(b), &y)
+	var out []string
+	var walk func(path string, p, q any)
+	walk = func(path string, p, q any) {
+		pm, ok1 := p.(map[string]any)
+		qm, ok2 := q.(map[string]any)
+		if ok1 && ok2 {
+			for k := range pm {
+				walk(path+"."+k, pm[k], qm[k])
+			}
+			for k := range qm {
+				if _, ok := pm[k]; !ok {
+					walk(path+"."+k, nil, qm[k])
+				}
+			}
+			return
+		}
+		if fmt.Sprint(p) != fmt.Sprint(q) {
+			out = append(out, fmt.Sprintf("%s: %v -> %v", strings.TrimPrefix(path, "."), p, q))
+		}
+	}
+	walk("", x, y)
+	sort.Strings(out)
+	return strings.Join(out, "; ")
 }
